@@ -162,17 +162,23 @@ func (c *Client) ListCategories(path []string) (rp.Tran, bool) {
 
 // MyUserID finds this client's user id in the user list by its (unique) name.
 func (c *Client) MyUserID() uint16 {
+	id, _ := c.FindMyUserID()
+	return id
+}
+
+// FindMyUserID is MyUserID with an explicit "found" result (0 is a possible id).
+func (c *Client) FindMyUserID() (uint16, bool) {
 	us, ok := c.UserList()
 	if !ok {
-		return 0
+		return 0, false
 	}
 	for _, u := range us {
 		if u.Name == c.Name {
 			c.UserID = u.ID
-			return u.ID
+			return u.ID, true
 		}
 	}
-	return 0
+	return 0, false
 }
 
 func be32(b []byte) uint32 {
